@@ -1,10 +1,105 @@
 import StepupModel.Proto
-/-! Driver requests of C17 (`c17 <op> ...`). -/
+import StepupModel.P.NGlob
+/-! Driver requests of C17 (`c17 <op> ...`).
+
+Encodings: a pattern or path is one hex token; substitutions are a hex list
+`name,value,name,value,...`; a tree is a hex list of path strings, directories with a trailing
+slash; results are `key:key=path,path;...` with groups and paths sorted as text. -/
 open StepupModel StepupModel.Proto
 
 namespace StepupModel.Drv.C17
+open StepupModel.P.NGlob
+
+def pairUp : List String → Option Subs
+  | [] => some []
+  | [_] => none
+  | n :: v :: rest => do
+    let r ← pairUp rest
+    pure ((cps n, cps v) :: r)
+
+def parseSubs (tok : String) : Option Subs := do pairUp (← unhexList tok)
+
+def hx (s : Str) : String := hex (ofCps s)
+
+def insertStr (x : String) : List String → List String
+  | [] => [x]
+  | y :: ys => if x < y then x :: y :: ys else if x = y then y :: ys else y :: insertStr x ys
+
+def sortStrs (l : List String) : List String := l.foldr insertStr []
+
+def joinOr (empty sep : String) (l : List String) : String :=
+  if l.isEmpty then empty else sep.intercalate l
+
+def showResults (r : Results) : String :=
+  joinOr "." ";" (sortStrs (r.map fun (k, ps) =>
+    ":".intercalate (k.map hx) ++ "=" ++ ",".intercalate (sortStrs (ps.map hx))))
+
+def showStrs (l : List Str) : String := joinOr "." "," (l.map hx)
+
+def showSet (l : List Str) : String := joinOr "." "," (sortStrs (l.map hx))
+
+def showErr : Err → String
+  | .value => "err value"
+  | .regex => "err regex"
+
+/-- A path string of the tree list: trailing slash marks a directory. -/
+def parseEntry (s : Str) : Path × Bool :=
+  if s.getLast? == some 47 then (splitSlash s.dropLast, true) else (splitSlash s, false)
+
+def parseTree (tok : String) : Option Tree := do
+  pure ((← unhexList tok).map fun s => parseEntry (cps s))
+
+def showTok (t : Tok) : String := (if t.isLit then "L" else "W") ++ hx t.text
 
 def handle : List String → Option String
+  | ["tok", p] => do
+    pure (joinOr "." "," ((tokenize (cps (← unhex p))).map showTok))
+  | ["regex", p, subs] => do
+    pure (match compileRegex (cps (← unhex p)) (← parseSubs subs) with
+      | .ok re => "ok " ++ hx (renderRegex re)
+      | .error e => showErr e)
+  | ["glob", p, subs] => do
+    pure (match compileGlob (cps (← unhex p)) (← parseSubs subs) with
+      | .ok g => "ok " ++ hx g
+      | .error e => showErr e)
+  | ["ng", p, subs] => do
+    let p := cps (← unhex p); let subs ← parseSubs subs
+    let simple := boolStr (simplePattern p subs)
+    pure (match mkNG p subs with
+      | .ok ng => simple ++ " ok " ++ showStrs ng.names
+      | .error e => simple ++ " " ++ showErr e)
+  | ["has", p] => do
+    let p := cps (← unhex p)
+    pure (boolStr (hasAnyWildcards p) ++ boolStr (hasAnonymousWildcards p) ++
+      boolStr (hasTrailingRecursive p) ++ " " ++ hx (globBaseDir p))
+  | ["match", p, subs, paths] => do
+    let ng ← (mkNG (cps (← unhex p)) (← parseSubs subs)).toOption
+    pure (joinOr "." ";" ((← unhexList paths).map fun s =>
+      match ng.matcher (cps s) with
+      | some vals => "M" ++ ":".intercalate (vals.map hx)
+      | none => "N"))
+  | ["fnmatch", pat, names] => do
+    let pat := cps (← unhex pat)
+    pure (String.join ((← unhexList names).map fun n => boolStr (fnmatchC pat (cps n))))
+  | ["iglob", g, tree] => do
+    pure (showSet ((iglob (← parseTree tree) (cps (← unhex g))).map render))
+  | ["scan", p, subs, tree] => do
+    let ng ← (mkNG (cps (← unhex p)) (← parseSubs subs)).toOption
+    let t ← parseTree tree
+    let r := ng.scan t
+    pure (showResults r ++ " " ++ showStrs (files r))
+  | ["evolve", p, subs, old, added, deleted] => do
+    let ng ← (mkNG (cps (← unhex p)) (← parseSubs subs)).toOption
+    let strs (tok : String) : Option (List Str) := do pure ((← unhexList tok).map cps)
+    let r0 := extend ng.matcher [] (← strs old)
+    let added ← strs added; let deleted ← strs deleted
+    let ext := extend ng.matcher r0 added
+    let red := reduce ng.matcher ext deleted
+    let wc := match willChange ng.matcher r0 deleted added with
+      | some e => "some " ++ showResults e
+      | none => "none"
+    pure (showResults r0 ++ " " ++ showResults ext ++ " " ++ showResults red ++ " " ++ wc ++ " " ++
+      showStrs (files red))
   | _ => none
 
 end StepupModel.Drv.C17
